@@ -35,6 +35,12 @@ TRUSTED = [
     "subject) applied to the CANONICAL call (every parameter by keyword, defaults filled in) - the decorator is then called in a randomly "
     "chosen equivalent call form and the indexes that reach the backend are compared with the model's; the filter parameters (m, k) come "
     "from params_for (floating point, not modelled; only 0 < k <= m is checked on a grid)",
+    "typed elements: the harness tells elements apart by the types and reprs of their bound arguments (1, True and 1.0 are three elements: "
+    "the key formatter renders them `1`, `true`, `1.0`) plus the value of a key-context variable the template mentions; elements whose "
+    "keys coincide (1 and '1') are different elements that share all their indexes",
+    "controls of the Cache facade (invalidate_further, disabling of one command, transaction blocks of the three modes) are opened by the "
+    "harness around lookups / adds / expire / exists steps; they are no steps of the model (Model/Bloom.lean, 'controls of the facade'): "
+    "inside a transaction block time does not pass and the filter's key is not deleted",
     "virtual clock (harness/vtime.py, 1 tick = 1/8 s, dyadic TTLs); the backend runs with check_interval=0, i.e. without its purge task: a "
     "run-out entry stays physically stored until a command reads it (one sweep of the purge task on a key is what `exists` does to it)",
     "harness: canonicalisation (sorted index sets, truthiness of answers), recording middleware / Memory subclass, probe-limit wrapper "
@@ -50,6 +56,9 @@ PARTIAL = (
     "dual_bloom is tied to its model (its documentation allows false negatives, the property is about `bloom`) plus the one property-level "
     "statement that holds for it: an element it has recorded in its true filter is never answered False (theorem dual_recorded_never_false); "
     "dual_bloom's two keys are not given deadlines; the purge task of the in-memory backend is not run (its effect on a key = `exists`); "
+    "a `delete` of the filter's key inside a transaction (deferred to the commit, which then also drops what was added in the block) and a "
+    "rolled-back transaction around adds (the bits stay: bit fields are not buffered) are observed, not judged - transactions are not in "
+    "the property's quantifier; unhashable / container arguments, Decimal and bytes elements are not generated; "
     "positional-only parameters, *args / **kwargs predicates and methods (self) are not among the generated signatures; Redis/diskcache "
     "bit-field commands belong to C19"
 )
@@ -105,15 +114,21 @@ def gen_hist(rng, n: int) -> dict:
     ops = []
     now = 0
     deadlines: dict = {}
+    in_tx = False
     for _ in range(rng.randint(1, 25)):
         key = rng.randrange(nkeys)
         t = rng.random()
+        if cfg == "facade" and rng.random() < 0.12:     # transaction blocks of the facade around bit-field commands
+            ops.append(["end"] if in_tx else ["begin", rng.choice(["fast", "fast", "locked", "serializable"])])
+            in_tx = not in_tx
         if timed and t < 0.36:
             u = rng.random()
             if u < 0.3:
                 ttl = rng.choice([1, 2, 8, 9, 16, 80])
                 ops.append(["expire", key, ttl])
                 deadlines[key] = now + ttl      # (if the key is live; good enough to aim the clock)
+            elif in_tx:
+                ops.append(["touch", key])
             elif u < 0.8:
                 pending = [d - now for d in deadlines.values() if d > now]
                 if pending and rng.random() < 0.7:
@@ -162,13 +177,20 @@ CAPS = [1, 2, 3, 5, 8, 13, 30, 100, 400]
 FPS = [0.1, 1, 5, 10, 25, 50, 70, 80]
 
 
-def gen_element(rng, sig: str, serial: int) -> list:
+# values that are equal (and hash-equal) in Python but that the key formatter renders differently - and strings that render
+# like one of them: 1 / True / 1.0 / "1", 0 / False / 0.0 / -0.0, 10**20 / 1e20, None / ""
+TYPED_POOL = [0, 1, 2, True, False, 0.0, 1.0, 2.0, -0.0, None, -1, -1.0, "1", "true", "", "None", 0.5, 10 ** 20, 1e20, "a"]
+
+
+def gen_element(rng, sig: str, serial: int, typed: bool = False) -> list:
     """the bound arguments of one call (after defaults); defaulted parameters hold their default most of the time"""
     names, _, defaults = bb.SIGS[sig]
     el = []
     for n in names:
         if n in defaults:
-            el.append(defaults[n] if rng.random() < 0.65 else gen_text(rng, 3) + "v")
+            el.append(defaults[n] if rng.random() < 0.65 else (rng.choice(TYPED_POOL) if typed else gen_text(rng, 3) + "v"))
+        elif typed:
+            el.append(rng.choice(TYPED_POOL[:12]) if rng.random() < 0.8 else rng.choice(TYPED_POOL))
         elif n == names[0]:
             el.append(gen_text(rng, 6) + str(serial))
         else:
@@ -182,49 +204,88 @@ def gen_sig(rng):
     return sig, name
 
 
+def gen_universe(rng, sig: str, size: int, typed: bool) -> list:
+    universe, seen = [], set()
+    for _ in range(40 * size):
+        if len(universe) >= size:
+            break
+        e = gen_element(rng, sig, len(universe), typed)
+        if bb.tid(e) not in seen:
+            seen.add(bb.tid(e))
+            universe.append(e)
+    return universe
+
+
 def gen_bloom(rng, n: int, big: int) -> dict:
     cap = rng.choice(CAPS)
     fp = rng.choice(FPS)
     sig, name = gen_sig(rng)
+    # element alphabets beyond text: a third of the cases draws the arguments from ints / bools / floats / None and strings
+    # that render like them - elements that are equal for Python (1 == True == 1.0) but are different elements of the filter
+    typed = rng.random() < 0.35
     nadd = min(rng.choice([0, 1, max(1, cap // 2), cap, cap + 1, 2 * cap, 5 * cap]), big)
-    universe = []
-    seen = set()
-    while len(universe) < nadd + 12:
-        e = gen_element(rng, sig, len(universe))
-        if tuple(e) not in seen:
-            seen.add(tuple(e))
-            universe.append(e)
+    if typed:
+        nadd = min(nadd, rng.choice([2, 4, 8, 16]))
+    universe = gen_universe(rng, sig, nadd + 12, typed)
     true_set = [e for e in universe if rng.random() < 0.8]
     adds = [rng.choice(universe) for _ in range(nadd)]
+    # the key template may also mention a key-context variable: the element is then (arguments, value of the variable)
+    ctx = name is not None and rng.random() < 0.15
+    tns = ["A", "B", ""]         # (strings only: `{@:get(..)}` hands the raw value to str.join)
+    opts = (lambda: [{"tn": rng.choice(tns)}]) if ctx else (lambda: [])
     # every add / query picks one of the element's equivalent call forms (positional / keyword / default omitted) at random
     form = lambda: rng.randrange(12)  # noqa: E731
     # the filter's key lives in the TTL store: a share of the cases rotates the filter (`expire` on its key), lets time
     # pass (up to / past the deadline, nothing touching the key in between), deletes or probes the key
     timed = rng.random() < 0.4
     ttl = rng.choice([2, 8, 16, 80])
+    # lookups between the adds (also of elements that are added only later, and of their twins): a lookup must neither
+    # change the filter nor be remembered
+    p_look = 0.5 if typed or ctx else 0.1
+    # controls of the facade opened around lookups / adds / commands on the filter's key: whatever is open, a lookup leaves
+    # the filter intact and an added element is found afterwards
+    p_ctl = 0.35 if n % 2 == 0 and rng.random() < 0.5 else 0.0
+
+    def wrap(sts: list) -> list:
+        if not (p_ctl and rng.random() < p_ctl):
+            return sts
+        ctl = rng.choice(["invalidate"] * 4 + ["tx:fast", "tx:fast", "tx:locked", "tx:serializable", "dis:get_bits", "dis:incr_bits"]
+                         + ["dis:" + rng.choice(bb.HARMLESS_DISABLED)])
+        inner = list(sts)
+        for _ in range(rng.choice([0, 0, 1, 2])):
+            inner.append(["query", rng.choice(universe), form()] + opts())
+        if ctl.startswith("tx:"):       # time does not pass and the filter's key is not deleted inside a transaction block
+            inner = [st for st in inner if st[0] not in ("adv", "del")]
+            if timed and rng.random() < 0.5:
+                inner.insert(rng.randrange(len(inner) + 1), ["expire", ttl])
+        return [["in", ctl, inner]] if inner else []
+
     steps = []
     for e in adds:
-        steps.append(["add", e, form()])
-        if rng.random() < 0.1:
-            steps.append(["query", rng.choice(universe), form()])
+        group = [["add", e, form()] + opts()]
+        if rng.random() < p_look:
+            group.insert(rng.randrange(2), ["query", rng.choice(universe), form()] + opts())
         if timed and rng.random() < 0.5:
             u = rng.random()
             if u < 0.35:
-                steps.append(["expire", ttl])
+                group.append(["expire", ttl])
             elif u < 0.8:
-                steps.append(["adv", rng.choice([1, ttl - 1, ttl, ttl, ttl + 1])])
+                group.append(["adv", rng.choice([1, ttl - 1, ttl, ttl, ttl + 1])])
             elif u < 0.9:
-                steps.append(["touch"])
+                group.append(["touch"])
             else:
-                steps.append(["del"])
+                group.append(["del"])
+        steps += wrap(group)
     queries = []
-    for e in list(dict.fromkeys(map(tuple, adds))) + [tuple(e) for e in universe[-12:]]:
-        if e not in queries:
+    for e in adds + universe[-12:]:
+        if not any(bb.tid(e) == bb.tid(q) for q in queries):
             queries.append(e)
     rng.shuffle(queries)
-    steps += [["query", list(e), form()] for e in queries[:big]]
+    for e in queries[:big]:
+        for tn in (tns if ctx else [None]):
+            steps += wrap([["query", e, form()] + ([{"tn": tn}] if ctx else [])])
     return {"kind": "bloom", "via": "facade" if n % 2 == 0 else "direct", "capacity": cap, "fp": fp, "chk": rng.random() < 0.5,
-            "sig": sig, "name": name, "truthy": rng.choice(["bool", "bool", "int", "str", "none"]),
+            "sig": sig, "name": name, "ctx": ctx, "truthy": rng.choice(["bool", "bool", "int", "str", "none"]),
             "true_set": true_set, "steps": steps}
 
 
@@ -233,11 +294,7 @@ def gen_dual(rng, n: int) -> dict:
     capacity = cap if rng.random() < 0.6 else [cap, rng.choice([1, 3, 10])]
     false = rng.choice([1, 5, 20, 50]) if rng.random() < 0.6 else [rng.choice([1, 10]), rng.choice([5, 50])]
     sig, name = gen_sig(rng)
-    universe = []
-    for i in range(rng.randint(2, 3 * cap + 6)):
-        e = gen_element(rng, sig, i)
-        if e not in universe:
-            universe.append(e)
+    universe = gen_universe(rng, sig, rng.randint(2, 3 * cap + 6), rng.random() < 0.3)
     true_set = [e for e in universe if rng.random() < 0.5]
     calls = [[rng.choice(universe), rng.randrange(12)] for _ in range(rng.randint(1, 40))]      # [element, call form]
     return {"kind": "dual", "via": "facade" if n % 2 == 0 else "direct", "capacity": capacity, "false": false,
@@ -351,7 +408,25 @@ def shrink(case: dict, want_spec: bool) -> dict:
         return cur
     if kind == "bloom":
         cur = dict(case, steps=ddmin(case["steps"], lambda s: f(dict(case, steps=s))))
-        used = [st[1] for st in cur["steps"] if st[0] in ("add", "query")]
+        for _ in range(3):      # control blocks: drop the block (keep its steps), else shrink its steps
+            changed = False
+            for n, st in enumerate(list(cur["steps"])):
+                if n >= len(cur["steps"]) or cur["steps"][n] is not st or st[0] != "in":
+                    continue
+                flat = cur["steps"][:n] + st[2] + cur["steps"][n + 1:]
+                if f(dict(cur, steps=flat)):
+                    cur, changed = dict(cur, steps=flat), True
+                    break
+                if len(st[2]) > 1:
+                    inner = ddmin(st[2], lambda l: bool(l) and f(dict(cur, steps=cur["steps"][:n] + [[st[0], st[1], l]] + cur["steps"][n + 1:])))
+                    if len(inner) < len(st[2]):
+                        cur, changed = dict(cur, steps=cur["steps"][:n] + [[st[0], st[1], inner]] + cur["steps"][n + 1:]), True
+                        break
+            if not changed:
+                break
+        if len(cur["steps"]) > 1:
+            cur = dict(cur, steps=ddmin(cur["steps"], lambda s: f(dict(cur, steps=s))))
+        used = [st[1] for st, _, _ in bb.flat_steps(cur["steps"]) if st[0] in ("add", "query")]
         return _shrink_elements(cur, used, f)
     if kind == "dual":
         cur = dict(case, calls=ddmin(case["calls"], lambda s: f(dict(case, calls=s))))
@@ -361,7 +436,8 @@ def shrink(case: dict, want_spec: bool) -> dict:
 
 def _shrink_elements(cur: dict, used: list, f) -> dict:
     """keep only the elements the remaining steps mention in `true_set`"""
-    keep = [e for e in cur["true_set"] if e in used]
+    ids = {bb.tid(e) for e in used}
+    keep = [e for e in cur["true_set"] if bb.tid(e) in ids]
     if keep != cur["true_set"] and f(dict(cur, true_set=keep)):
         cur = dict(cur, true_set=keep)
     return cur
@@ -369,6 +445,46 @@ def _shrink_elements(cur: dict, used: list, f) -> dict:
 
 SIGNATURES = {"incr1": "bitfield-single-command", "hist": "bitfield-history", "idx": "get_indexes", "bloom": "bloom-false-negative",
               "dual": "dual_bloom-model", "params": "params_for"}
+
+
+D45 = "D45:tx-expire-snapshot-clobbers-bitfield"
+
+
+def _without_tx_expire(case: dict):
+    """the same case with every transaction block that holds an `expire` of a bit-field key opened up (None if there is none)"""
+    if case["kind"] == "bloom":
+        steps, hit = [], False
+        for st in case["steps"]:
+            if st[0] == "in" and st[1].startswith("tx:") and any(i[0] == "expire" for i in st[2]):
+                steps += st[2]
+                hit = True
+            else:
+                steps.append(st)
+        return dict(case, steps=steps) if hit else None
+    if case["kind"] == "hist":
+        ops, hit, open_at, seen_expire = [], False, None, False
+        for op in case["ops"] + [["end"]]:
+            if op[0] in ("begin", "end", "del", "adv"):     # whatever ends the open block (see bitsbloom._hist_impl)
+                if open_at is not None and seen_expire:
+                    del ops[open_at]
+                    hit = True
+                open_at, seen_expire = (len(ops), False) if op[0] == "begin" else (None, False)
+            elif op[0] == "expire" and open_at is not None:
+                seen_expire = True
+            ops.append(op)
+        ops.pop()
+        return dict(case, ops=ops) if hit else None
+    return None
+
+
+def classify(small: dict) -> str:
+    """the stable signature of a property violation.  D45 (proposed_fixes/pending): inside a transaction `expire` of a bit-field
+    key snapshots the array into the overlay and the commit writes the snapshot back over the increments made meanwhile - a
+    failing case that passes once its transaction blocks with an `expire` are opened up is that defect"""
+    alt = _without_tx_expire(small)
+    if alt is not None and not bb.evaluate([alt])[0].bad:
+        return D45
+    return SIGNATURES[small["kind"]]
 
 
 def report(chk: Check, case: dict, origin: str, seen: set) -> bool:
@@ -392,7 +508,7 @@ def report(chk: Check, case: dict, origin: str, seen: set) -> bool:
     replay = {"case": small, "trace": r.trace, "diff_vs_property": r.diff_spec, "diff_vs_model": r.diff_model, "origin": origin,
               "replay_cmd": "./check C18 --replay <this file>"}
     if r.diff_spec is not None:
-        chk.violation(r.diff_spec, replay, signature=SIGNATURES[small["kind"]])
+        chk.violation(r.diff_spec, replay, signature=classify(small))
     else:
         chk.violation("correspondence broken (the property still holds on this case): " + r.diff_model,
                       dict(replay, broken=f"correspondence Lean model <-> cashews ({small['kind']})"), signature=None, no_input=True)
@@ -527,7 +643,11 @@ def run(chk: Check) -> int:
                 "get_indexes - at least one re-probe, k = m, k > m (assertion); bloom - a query for an added element (also beyond capacity, "
                 "also in another call form than the one it was added through), a false positive observed, the decorator refusing its "
                 "parameters, an add / query on a run-out unpurged filter key, a filter deadline set / passed; dual_bloom - an answer given "
-                "from the filters alone, a call for an element recorded as true (also in another call form); params_for cases are never counted. "
+                "from the filters alone, a call for an element recorded as true (also in another call form); bloom also - a lookup of an element "
+                "that has an equal-but-differently-rendered twin (1 / True / 1.0) in the same filter, a query of an added element whose twin "
+                "was looked up before, a step inside an invalidate_further / disabling / transaction block, a query of an added element "
+                "inside such a block and after a lookup inside one; bit fields also - a command / an expire inside a transaction block; "
+                "params_for cases are never counted. "
                 "distinct = distinct canonical case (JSON) among generated ones + the enumerated non-trivial ones",
         "exhaustive": True,
         "exhaustive_subspaces": [
